@@ -1196,7 +1196,9 @@ class CallsMixin(ExecBase):
         if isinstance(x, Exc):
             if isinstance(t, ClassRef):
                 r = self.exc_matches(x, [t.name])
-                return r if not isinstance(r, bool) else z3.BoolVal(r)
+                if r is None:  # exception of unknown class (raised by an opaque callee / merged exits)
+                    return fresh("exc_isinstance_" + t.name, BoolS)
+                return z3.BoolVal(bool(r))
         v = self.as_val(x, st, node)
         if isinstance(t, Builtin):
             tag = {"dict": "d", "list": "l", "str": "s", "bool": "b", "set": "st", "frozenset": "st"}.get(t.name)
